@@ -263,26 +263,22 @@ Definition ignored_client_never_stored_statement : Prop :=
     (c_ignore_qlog c = true -> st_mem (process ev q st) = st_mem st) /\
     (c_ignore_stats c = true -> st_stats (process ev q st) = st_stats st).
 
-(** The hypothesis under which it holds: the ClientID is not also the spelling
-    of a stored MAC address (the finders of home/clients.go go through
-    index.find, which reads "aa-bb-cc-dd-ee-ff" as a MAC). *)
-Definition clientid_not_a_stored_mac (ix : index) (q : query) : Prop :=
-  forall m, q_cid_mac q = Some m -> find_by_mac ix m = None.
-
 Lemma first_client_here f ix i rest u c :
   f i = Some u -> deref ix u = Some c -> first_client f ix (i :: rest) = Some c.
 Proof. intros H1 H2. cbn. rewrite H1, H2. reflexivity. Qed.
 Lemma first_client_skip f ix i rest : f i = None -> first_client f ix (i :: rest) = first_client f ix rest.
 Proof. intros H. cbn. rewrite H. reflexivity. Qed.
 
+(** The finders of the log and the statistics select the client of the request
+    precedence (ClientID, exact address, longest containing prefix, lease MAC):
+    a ClientID is never read as a MAC address. *)
 Lemma precedence_client_found ev q u c :
   find_by_cid (e_ix ev) [] = None ->
-  clientid_not_a_stored_mac (e_ix ev) q ->
   acf_find (e_ix ev) (e_dhcp ev) (q_cid q) (q_addr q) = Some u -> deref (e_ix ev) u = Some c ->
   first_client (find_loose (e_ix ev) (e_dhcp ev)) (e_ix ev) (ids_of q) = Some c /\
   first_client (find_strict (e_ix ev) (e_dhcp ev)) (e_ix ev) (ids_of q) = Some c.
 Proof.
-  intros Hemp Hmac Hacf Hd. unfold acf_find in Hacf. unfold ids_of.
+  intros Hemp Hacf Hd. unfold acf_find in Hacf. unfold ids_of.
   set (ix := e_ix ev) in *. set (dh := e_dhcp ev) in *.
   assert (Haddr : find_by_cid ix (q_cid q) = None ->
           find_loose ix dh (IdAddr (q_addr q)) = Some u /\ find_strict ix dh (IdAddr (q_addr q)) = Some u).
@@ -294,40 +290,35 @@ Proof.
   - destruct (Haddr Hemp) as [H1 H2]. split; eapply first_client_here; eauto.
   - destruct (find_by_cid ix (b :: cid)) as [u'|] eqn:Hc.
     + inversion Hacf; subst u'.
-      assert (Hf : find ix (b :: cid) None (q_cid_mac q) = Some u) by (unfold find; rewrite Hc; reflexivity).
+      assert (Hf : find ix (b :: cid) None None = Some u) by (unfold find; rewrite Hc; reflexivity).
       split; eapply first_client_here; eauto.
-    + assert (Hf : find ix (b :: cid) None (q_cid_mac q) = None).
-      { unfold find. rewrite Hc. destruct (q_cid_mac q) as [m|] eqn:Em; cbn; [exact (Hmac m Em)|reflexivity]. }
+    + assert (Hf : find ix (b :: cid) None None = None) by (unfold find; rewrite Hc; reflexivity).
       destruct (Haddr eq_refl) as [H1 H2].
       split; (rewrite first_client_skip by exact Hf); eapply first_client_here; eauto.
 Qed.
 
-Theorem ignored_client_never_stored_partial : forall ev q st u c,
-  find_by_cid (e_ix ev) [] = None ->
-  clientid_not_a_stored_mac (e_ix ev) q ->
-  acf_find (e_ix ev) (e_dhcp ev) (q_cid q) (q_addr q) = Some u -> deref (e_ix ev) u = Some c ->
-  (c_ignore_qlog c = true -> st_mem (process ev q st) = st_mem st) /\
-  (c_ignore_stats c = true -> st_stats (process ev q st) = st_stats st).
+Theorem ignored_client_never_stored : ignored_client_never_stored_statement.
 Proof.
-  intros ev q st u c Hemp Hmac Hacf Hd.
-  destruct (precedence_client_found ev q u c Hemp Hmac Hacf Hd) as [H1 H2]. split; intros Hf.
+  intros ev q st u c Hemp Hacf Hd.
+  destruct (precedence_client_found ev q u c Hemp Hacf Hd) as [H1 H2]. split; intros Hf.
   - apply ignored_client_not_logged. unfold qlog_client_ignored. rewrite H1. exact Hf.
   - apply ignored_client_not_counted. unfold stats_client_counted. rewrite H2, Hf. reflexivity.
 Qed.
 
-(** The witness against the full statement (KNOWN FINDING
+(** The former witness against the statement (repaired finding
     C08-maclike-clientid-resolved-as-mac): client b = 192.168.1.0/24 with both
     ignore flags, client a = MAC aa:bb:cc:dd:ee:01 without; a request from
-    192.168.1.5 with ClientID "aa-bb-cc-dd-ee-01". *)
+    192.168.1.5 with ClientID "aa-bb-cc-dd-ee-01" is recorded nowhere. *)
 Definition wit_client (u : uid) name ips subnets macs (iq is_ : bool) : client :=
   {| c_uid := u; c_name := name; c_cids := []; c_ips := ips; c_subnets := subnets; c_macs := macs;
      c_own_settings := false; c_filtering := false; c_safesearch := false; c_safebrowsing := false;
      c_parental := false; c_own_blocked := false; c_blocked := None;
-     c_ignore_qlog := iq; c_ignore_stats := is_ |}.
+     c_ignore_qlog := iq; c_ignore_stats := is_; c_tags := []; c_upstreams := [] |}.
 Definition wit_mac : bytes := [170;187;204;221;238;1].
 Definition wit_cid : bytes := [97;97;45;98;98;45;99;99;45;100;100;45;101;101;45;48;49].
+Definition wit_cfg : config := {| cfg_tags := []; cfg_addr_ok := fun _ => true |}.
 Definition wit_ix : index :=
-  run [OAdd (wit_client 1 [98] [] [([192;168;1;0], 24)] [] true true);
+  run wit_cfg [OAdd (wit_client 1 [98] [] [([192;168;1;0], 24)] [] true true);
        OAdd (wit_client 2 [97] [] [] [wit_mac] false false)] empty_index.
 Definition wit_env (anon : bool) : env :=
   {| e_ix := wit_ix; e_dhcp := fun _ => None; e_anon := anon; e_qlog_enabled := true; e_refuse_any := false;
@@ -335,29 +326,21 @@ Definition wit_env (anon : bool) : env :=
 Definition wit_query (cid : bytes) (mac : option bytes) : query :=
   {| q_name := [111;107;46]; q_any := false; q_addr := ([192;168;1;5], []); q_cid := cid; q_cid_mac := mac |}.
 
-Theorem ignored_client_never_stored_refuted : ~ ignored_client_never_stored_statement.
-Proof.
-  intros H.
-  destruct (H (wit_env true) (wit_query wit_cid (Some wit_mac)) empty_store 1
-              (wit_client 1 [98] [] [([192;168;1;0], 24)] [] true true)) as [H1 _];
-    try (vm_compute; reflexivity).
-  specialize (H1 eq_refl). vm_compute in H1. discriminate.
-Qed.
-
-(** Non-vacuity of the partial theorem, for both anonymisation settings: the
-    same request without the MAC-like ClientID is recorded nowhere (this is the
-    case the repaired defect #9 got wrong with anonymisation on); a request
-    from outside the prefix is recorded with the masked address. *)
-Lemma partial_premises_satisfiable :
+(** Non-vacuity, for both anonymisation settings: the request of the ignored
+    client b is recorded nowhere, with the MAC-like ClientID and without it
+    (the latter is the case the repaired defect #9 got wrong with anonymisation
+    on); a request from outside the prefix is recorded with the masked address. *)
+Lemma never_stored_premises_satisfiable :
   find_by_cid wit_ix [] = None /\
-  clientid_not_a_stored_mac wit_ix (wit_query [] None) /\
-  acf_find wit_ix (fun _ => None) [] ([192;168;1;5], []) = Some 1 /\
+  acf_find wit_ix (fun _ => None) wit_cid ([192;168;1;5], []) = Some 1 /\
+  process (wit_env true) (wit_query wit_cid (Some wit_mac)) empty_store = empty_store /\
+  process (wit_env false) (wit_query wit_cid (Some wit_mac)) empty_store = empty_store /\
   process (wit_env true) (wit_query [] None) empty_store = empty_store /\
   process (wit_env false) (wit_query [] None) empty_store = empty_store /\
   all_log (process (wit_env true)
              {| q_name := [79;75;46]; q_any := false; q_addr := ([10;1;2;3], []); q_cid := []; q_cid_mac := None |}
              empty_store) = [([111;107], [10;1;0;0], [])].
-Proof. repeat split; try (vm_compute; reflexivity). intros m H; discriminate. Qed.
+Proof. repeat split; vm_compute; reflexivity. Qed.
 
 (** The reading of defect #9 (ids built from the anonymised address) is not
     the property: it would record the ignored client. *)
